@@ -85,6 +85,19 @@ func (c *Ctx) add(rule, construct string, pos token.Pos, st Status, nontrivial b
 	c.Obs = append(c.Obs, &Ob{Rule: rule, Construct: construct, Pos: c.P.Pos(pos), Status: st, Detail: detail, NonTrivial: nontrivial})
 }
 
+// withOnly runs another property's rule function and keeps only the named rules, under this property's names.
+// (Nested uses are skipped: what an inner one would record is dropped by the outer one anyway.)
+func (c *Ctx) withOnly(rules map[string]string, construct func(string) bool, floorRule string, floor int, run func()) {
+	if c.only != nil {
+		return
+	}
+	n0 := len(c.Obs)
+	c.only, c.onlyConstruct = rules, construct
+	run()
+	c.only, c.onlyConstruct = nil, nil
+	c.Floor(floorRule, len(c.Obs)-n0, floor)
+}
+
 // OK records a discharged obligation whose discharge needed a fact or a resolved site.
 func (c *Ctx) OK(rule, construct string, pos token.Pos, detail string) {
 	c.add(rule, construct, pos, Discharged, true, detail)
@@ -819,4 +832,18 @@ func (c *Ctx) collectorOf(host *load.FuncInfo, arg ast.Expr) (cfi *load.FuncInfo
 		return nil, nil, nil
 	}
 	return hfi, res, call.Args[k]
+}
+
+// madeUpError: an error built on the spot (fmt.Errorf, errors.New) that wraps no error value: it reports something the
+// code has concluded by itself, not the failure of a call.
+func madeUpError(info *types.Info, e ast.Expr) bool {
+	if !isErrorCtor(info, e) {
+		return false
+	}
+	for _, a := range ast.Unparen(e).(*ast.CallExpr).Args {
+		if t := info.TypeOf(a); t != nil && (isErrorType(t) || types.Implements(t, errType().Underlying().(*types.Interface))) {
+			return false
+		}
+	}
+	return true
 }
